@@ -27,12 +27,12 @@ THEOREMS = [
     'Pyiga.Props.C05.boehm', 'Pyiga.Props.C05.boehm_matrix',
     'Pyiga.Props.C05.prolongation_structure',
     'Pyiga.Props.C05.represent_fine_rec', 'Pyiga.Props.C05.virtual_composition',
-    'Pyiga.Props.C05.levelwise_eval',
+    'Pyiga.Props.C05.levelwise_eval', 'Pyiga.Props.C05.prolongate_to_spec',
     'Pyiga.Props.C05.thb_virtual_prolongators_wrong', 'Pyiga.Props.C05.prolongate_to_finite_disparity_wrong',
     'Pyiga.Props.C05.prolongate_to_fixed_witness',
 ]
 MODULES = ['Pyiga.Model.TransferKnots', 'Pyiga.Model.Transfer', 'Pyiga.Proofs.CoxDeBoor', 'Pyiga.Proofs.Boehm',
-           'Pyiga.Proofs.Transfer', 'Pyiga.Props.C05']
+           'Pyiga.Proofs.Transfer', 'Pyiga.Proofs.ProlongateTo', 'Pyiga.Props.C05']
 
 KEY_D9 = 'thb-virtual-prolongators-ge3-levels'
 KEY_D13 = 'prolongate_to-finite-disparity-deeper-than-d'
